@@ -46,6 +46,24 @@ FILE_PROPS = [
     ("src/ext.rs", ["C01", "C02", "C05"]),
 ]
 
+# second pass (MECHMUT_ARCH=1): the code that only compiles for other targets, checked through the
+# emulated NEON / simd128 builds and the build without any vector module
+ARCH_FILE_PROPS = [
+    ("src/arch/aarch64/neon/memchr.rs", ["C01", "C02", "C07", "C06", "C05"]),
+    ("src/arch/aarch64/memchr.rs", ["C01", "C02", "C07", "C09"]),
+    ("src/arch/aarch64/neon/packedpair.rs", ["C11", "C19", "C03", "C05"]),
+    ("src/arch/wasm32/simd128/memchr.rs", ["C01", "C02", "C07", "C06", "C05"]),
+    ("src/arch/wasm32/memchr.rs", ["C01", "C02", "C07", "C09"]),
+    ("src/arch/wasm32/simd128/packedpair.rs", ["C11", "C19", "C03", "C05"]),
+    ("src/vector.rs", ["C01", "C02", "C07", "C11", "C05"]),
+    ("src/memchr.rs", ["C01", "C02", "C07", "C06", "C09"]),
+    ("src/memmem/searcher.rs", ["C03", "C04", "C10", "C09", "C11"]),
+]
+ARCH = bool(os.environ.get("MECHMUT_ARCH"))
+if ARCH:
+    FILE_PROPS = ARCH_FILE_PROPS
+    OUT = os.path.join(ROOT, "work/mechmut-arch")
+
 SWAPS = [("first_offset", "last_offset"), ("index1()", "index2()"), ("fwd_byte_by_byte", "rev_byte_by_byte"),
          (".add(", ".sub("), ("cmp::min(", "cmp::max("), (".min(", ".max("), ("saturating_sub", "wrapping_sub"),
          ("is_prefix(", "is_suffix("), ("checked_sub", "checked_add"), (".next()", ".next_back()"),
@@ -147,7 +165,32 @@ def gen():
     for rel, props in FILE_PROPS:
         p = os.path.join("/repo", rel)
         text = open(p).read()
+        arch_lines = None
+        if ARCH and rel in ("src/vector.rs", "src/memchr.rs", "src/memmem/searcher.rs"):
+            # lines inside items guarded by a non-x86_64 cfg (aarch64 / wasm32 / not(any(..)))
+            arch_lines = set()
+            lines = text.split("\n")
+            i = 0
+            while i < len(lines):
+                t = lines[i].strip()
+                if t.startswith("#[cfg(") and ("aarch64" in t or "wasm32" in t or t.startswith("#[cfg(not(any(")):
+                    # the guarded item: up to the matching close of the first `{` that follows
+                    j = i
+                    while j < len(lines) and "{" not in lines[j]:
+                        j += 1
+                    depth, k = 0, j
+                    while k < len(lines):
+                        depth += lines[k].count("{") - lines[k].count("}")
+                        if depth <= 0 and k >= j:
+                            break
+                        k += 1
+                    arch_lines.update(range(i, k + 1))
+                    i = k + 1
+                else:
+                    i += 1
         for i, l in code_lines(text):
+            if arch_lines is not None and i not in arch_lines:
+                continue
             for kind, new in mutants_of_line(l):
                 res.append(dict(file=rel, line=i + 1, kind=kind, old=l, new=new, props=props))
     for k, m in enumerate(res):
@@ -214,6 +257,10 @@ def run_one(d, m, env):
     for prop in m["props"]:
         rc, out = sh([d + "/verif/check", prop, "quick"], cwd=d + "/verif", env=env, timeout=900)
         viol = [l for l in out.splitlines() if l.startswith("VIOLATION")]
+        if "failed to build" in out and ARCH:
+            # the mutant does not compile for the emulated target
+            res["status"] = "nocompile"
+            break
         res["checks"][prop] = dict(rc=rc, violation=viol[:1])
         if rc == 124:
             res["checks"][prop]["timeout"] = True
@@ -251,7 +298,8 @@ def run(n, workers):
     rng.shuffle(pick)
     pick = pick[:n]
     print("running %d mutants on %d workers" % (len(pick), workers), flush=True)
-    env = dict(os.environ, CARGO_NET_OFFLINE="true", MEMCHR_VERIF_ONLY_CFGS="host,noavx2,nosse2,notrace")
+    env = dict(os.environ, CARGO_NET_OFFLINE="true",
+               MEMCHR_VERIF_ONLY_CFGS="neon,simd128,other" if ARCH else "host,noavx2,nosse2,notrace")
     dirs = [setup_worker(k) for k in range(workers)]
     import queue, threading
     q = queue.Queue()
